@@ -118,8 +118,26 @@ def record(lentil, tier, seed):
         dt = rng.choice((np.int64, np.uint8, np.int16, np.uint16, np.float32, bool))
         hi_ = {np.uint8: 256, np.int16: 30000, np.uint16: 60000, bool: 2}.get(dt, 9)
         a = nr.integers(0, hi_, size=(m, n)).astype(dt)
-        add({'act': 'rebin', 'a': ints(a), 'f': f, 'out': ints(u.rebin(a, f))})
         cu = nr.integers(0, hi_, size=(2, m, n)).astype(dt)
+        # the same samples in another memory layout are the same frame: Fortran order, a transposed array, every second sample of a
+        # larger one, a window of a larger one, a cube whose depth axis was moved
+        lay = rng.choice(('C', 'F', 'T', 'strided', 'window', 'C'))
+        if lay == 'F':
+            a, cu = np.asfortranarray(a), np.asfortranarray(cu)
+        elif lay == 'T':
+            a, cu = np.ascontiguousarray(a.T).T, np.moveaxis(np.ascontiguousarray(np.moveaxis(cu, 0, -1)), -1, 0)
+        elif lay == 'strided':
+            big = np.zeros((2 * m, 2 * n), dtype=a.dtype)
+            big[::2, ::2] = a
+            a = big[::2, ::2]
+            bigc = np.zeros((2, 2 * m, 2 * n), dtype=cu.dtype)
+            bigc[:, ::2, ::2] = cu
+            cu = bigc[:, ::2, ::2]
+        elif lay == 'window':
+            big = np.full((m + 3, n + 2), 7).astype(a.dtype)
+            big[2:2 + m, 1:1 + n] = a
+            a = big[2:2 + m, 1:1 + n]
+        add({'act': 'rebin', 'a': ints(a), 'f': f, 'out': ints(u.rebin(a, f))})
         add({'act': 'rebincube', 'cu': ints(cu), 'f': f, 'out': ints(u.rebin(cu, f))})
     # ---- centroid (rational: value * total must be the integer moment) ---------------------------------------
     for _ in range(200 if q else 1500):
